@@ -1,46 +1,81 @@
-// Replay harness for placement.RuleManager.savePatch/pre@(*Storage).SaveRuleGroup#1 / DeleteRuleGroup#1 (group-id-is-one-clean-path-segment):
-// rule groups "a" and "a/" are both accepted and served, but are stored under the same key rule_group/a (path.Join
-// cleans the raw id), so a restarted PD loads only one of them. Known finding (edge input). Injected via -overlay.
+// Replay harness for the rule-group storage writers (core.Storage.SaveRuleGroup / DeleteRuleGroup, core.ruleGroupKey):
+// rule groups are stored under "rule_group/" + the RAW group id, and the kv layer of a running PD (etcdKVBase) joins
+// every key to its root path with path.Join, which cleans it. Before the fix group ids "a" and "a/" were both accepted
+// and served but shared one record (a restarted PD loaded only one), and the id "../alloc_id" addressed the id
+// allocator's window: SetRuleGroup + DeleteRuleGroup removed it (the allocator then starts again from 0 - duplicate ids).
+// An update with such an id must be rejected and change nothing. verifCleaningKV mimics etcdKVBase's key handling on
+// top of the in-memory kv. Injected via -overlay.
 package placement
 
 import (
+	"path"
 	"testing"
 
 	"github.com/tikv/pd/server/core"
 	"github.com/tikv/pd/server/kv"
 )
 
-func TestVerifReplayGroupIDCollision(t *testing.T) {
-	store := core.NewStorage(kv.NewMemoryKV())
-	m := NewRuleManager(store, nil)
-	if err := m.Initialize(3, []string{"zone"}); err != nil {
-		t.Fatal(err)
-	}
-	if err := m.SetRuleGroup(&RuleGroup{ID: "a", Index: 5}); err != nil {
-		t.Fatal(err)
-	}
-	if err := m.SetRuleGroup(&RuleGroup{ID: "a/", Index: 7, Override: true}); err != nil {
-		t.Fatal(err)
-	}
-	served := map[string]RuleGroup{}
+type verifCleaningKV struct {
+	kv.Base
+	root string
+}
+
+func (k *verifCleaningKV) Load(key string) (string, error) { return k.Base.Load(path.Join(k.root, key)) }
+func (k *verifCleaningKV) Save(key, value string) error    { return k.Base.Save(path.Join(k.root, key), value) }
+func (k *verifCleaningKV) Remove(key string) error         { return k.Base.Remove(path.Join(k.root, key)) }
+func (k *verifCleaningKV) LoadRange(key, endKey string, limit int) ([]string, []string, error) {
+	// as etcdKVBase: strings.Join, not path.Join, for range ends
+	return k.Base.LoadRange(k.root+"/"+key, k.root+"/"+endKey, limit)
+}
+
+func verifGroups(m *RuleManager) map[string]RuleGroup {
+	r := map[string]RuleGroup{}
 	for _, g := range m.GetRuleGroups() {
-		served[g.ID] = *g
+		r[g.ID] = *g
 	}
-	m2 := NewRuleManager(store, nil)
-	if err := m2.Initialize(3, []string{"zone"}); err != nil {
-		t.Fatal(err)
-	}
-	loaded := map[string]RuleGroup{}
-	for _, g := range m2.GetRuleGroups() {
-		loaded[g.ID] = *g
-	}
-	t.Logf("served %v loaded %v", served, loaded)
-	if len(served) != len(loaded) {
-		t.Fatalf("restart loads %v, served was %v", loaded, served)
-	}
-	for k, v := range served {
-		if loaded[k] != v {
-			t.Fatalf("restart loads %v, served was %v", loaded, served)
+	return r
+}
+
+func TestVerifReplayGroupIDCollision(t *testing.T) {
+	for _, bad := range []string{"a/", "b/../a", "./a", "../alloc_id", "x/../../alloc_id"} {
+		mem := kv.NewMemoryKV()
+		base := &verifCleaningKV{Base: mem, root: "/pd/1"}
+		store := core.NewStorage(base)
+		if err := base.Save("alloc_id", "window-end"); err != nil {
+			t.Fatal(err)
+		}
+		m := NewRuleManager(store, nil)
+		if err := m.Initialize(3, []string{"zone"}); err != nil {
+			t.Fatal(err)
+		}
+		if err := m.SetRuleGroup(&RuleGroup{ID: "a", Index: 5}); err != nil {
+			t.Fatal(err)
+		}
+		before := verifGroups(m)
+		errSet := m.SetRuleGroup(&RuleGroup{ID: bad, Index: 7, Override: true})
+		if errSet != nil {
+			if after := verifGroups(m); len(after) != len(before) || after["a"] != before["a"] {
+				t.Errorf("group id %q: update rejected (%v) but the served groups changed: %v -> %v", bad, errSet, before, after)
+			}
+		}
+		served := verifGroups(m)
+		m2 := NewRuleManager(store, nil)
+		if err := m2.Initialize(3, []string{"zone"}); err != nil {
+			t.Fatal(err)
+		}
+		loaded := verifGroups(m2)
+		same := len(served) == len(loaded)
+		for k, v := range served {
+			if loaded[k] != v {
+				same = false
+			}
+		}
+		if !same {
+			t.Errorf("group id %q (SetRuleGroup error: %v): a restarted PD loads %v, served was %v", bad, errSet, loaded, served)
+		}
+		_ = m.DeleteRuleGroup(bad)
+		if v, _ := base.Load("alloc_id"); v != "window-end" {
+			t.Errorf("group id %q: SetRuleGroup + DeleteRuleGroup changed the id allocator's key: now %q", bad, v)
 		}
 	}
 }
